@@ -284,7 +284,27 @@ func TestVerifC02Node(t *testing.T) {
 					ok = ok && x == want
 				}
 				if !ok && !c.Violated() {
-					fail(map[string]string{"kind": "inconsistent_dedup"}, "payload %s was treated as new %d time(s) but deliveries per subscription=%v validator calls=%v forwarded=%d", p, want, d, v, f)
+					var life []string
+					for _, e := range nd.tr.Events() {
+						if (e.Kind == "newout" || e.Kind == "closedout") && e.Peer == O.ID() {
+							life = append(life, fmt.Sprintf("%s@+%v", e.Kind, e.T.Sub(r.born)))
+						}
+					}
+					sn := nd.Snap()
+					_, q := sn.QPeers[O.ID()]
+					_, gp := sn.Peers[O.ID()]
+					_, tp := sn.Topics["t"][O.ID()]
+					O.mu.Lock()
+					oin, oend := O.inOpen, O.inEnded
+					O.mu.Unlock()
+					var evs []string
+					for _, e := range nd.tr.Events() {
+						if e.Kind == "drop" && e.Peer == O.ID() {
+							evs = append(evs, fmt.Sprintf("drop@+%v", e.T.Sub(r.born)))
+						}
+					}
+					fail(map[string]string{"kind": "inconsistent_dedup"}, "payload %s was treated as new %d time(s) but deliveries per subscription=%v validator calls=%v forwarded=%d (observer: queue=%v routerPeer=%v inTopic=%v streamsFromNode opened=%d ended=%d lifecycle %v drops %v connects=%v)",
+						p, want, d, v, f, q, gp, tp, oin, oend, life, evs, len(r.nd.h.Connects()))
 				}
 			}
 			for k, v := range classes {
